@@ -33,7 +33,7 @@ verus! {
             state_matches(aut, fstart(input.anchored, input.span.start as int), sid, index0 as nat, at as int)
                 == state_matches(aut, fstart(input.anchored, input.span.start as int), sid, index as nat, at as int),
         decreases len - index,
-//@@ after /index \+= 1;/
+//@@ after /index (?:\+= 1|= index \+ 1);/
         proof {
             lemma_state_matches_unfold(aut, fstart(input.anchored, input.span.start as int), sid, (index - 1) as nat, at as int);
         }
@@ -115,7 +115,7 @@ impl OverlappingState {
                         lemma_seq_assoc(m, state_matches(aut, fstart(input.anchored, input.span.start as int), sid, next as nat, state.at + 1),
                             ov_from(aut, input.anchored, input.haystack@, fstart(input.anchored, input.span.start as int), input.span.end as int, state.at + 1, sid));
                     }
-//@@ before /match pre\.find_in\(input\.haystack\(\), span\)\.into_option\(\)/
+//@@ after /let span = Span::from\([^;]*;/
                 proof {
                     // C19: the prefilter is consulted from the current position only
                     assert(span.start == state.at && span.end == input.span.end); // [C19] [C10]
